@@ -19,7 +19,8 @@ RULE = ('cases = well-formed chart instrumented with data-only probes (contracts
         'the reference suffix (steps, contexts, condition evaluations incl. __old__, history '
         'restorations, delayed events becoming due; in half of the cases the external events carry '
         'a list that the consuming transitions read and extend in place; in a quarter one source '
-        'text serves both as executed code and as a guard) and so must the original continued after the '
+        'text serves both as executed code and as a guard; in half there are transitions from a '
+        'child state to its parent\'s history state) and so must the original continued after the '
         'snapshot. Non-trivial = snapshot taken while a state with an __old__-reading '
         'postcondition/invariant is active, a history memory is set, or a delayed event is '
         'pending; distinct = sha1(chart, history, b, method).')
@@ -49,7 +50,11 @@ def strategy(tier):
                 'payload': draw(st.booleans()),
                 # shared_text: one source text is used both as executed code (actions, entry
                 # code) and as evaluated code (guards)
-                'shared_text': draw(st.integers(0, 3)) == 0}
+                'shared_text': draw(st.integers(0, 3)) == 0,
+                # inner_hist: transitions from a child of P to P's own history state (C18
+                # quantifies over every statechart, not only the well-formed ones of DESIGN.md 2):
+                # the memory of the last exit is read while P stays active
+                'inner_hist': draw(st.booleans())}
     return cases()
 
 
@@ -68,7 +73,8 @@ def apply_op(d, op, sig, payload=False):
     elif op[0] == 'adv':
         d.advance(op[1])
     else:
-        rec = d.step(op[1])
+        gv = list(op[1]) + [True] * (len(d.spec['transitions']) - len(op[1]))
+        rec = d.step(gv)
         sig.append({'result': rec['result'], 'exc': rec['exc'],
                     'msg': str(rec['exc_obj'])[:200] if rec['exc'] else None,
                     'config': rec['config_after'], 'log': [list(x) for x in rec['log']],
@@ -106,6 +112,21 @@ def oracle(case):
         for t in spec['transitions']:
             if t.get('event'):
                 t['action'] = (t.get('action') or 'pass') + '\n' + BAG
+    n_extra = 0
+    if case.get('inner_hist'):
+        nxt = max([t['id'] for t in spec['transitions']] + [0]) + 1
+        for h in [x for x in spec['states'] if x['kind'] in ('shallow', 'deep')]:
+            sibs = [x['name'] for x in spec['states'] if x['parent'] == h['parent']
+                    and x['kind'] in ('basic', 'compound', 'orthogonal')]
+            for k, sib in enumerate(sibs[:2]):
+                spec['transitions'].append(
+                    {'id': nxt, 'source': sib, 'target': h['name'], 'event': 'e%d' % (k % 2),
+                     'guard': probes.guard_code(nxt), 'action': probes.action_code(nxt),
+                     'priority': 0})
+                nxt += 1
+                n_extra += 1
+        if n_extra:
+            labels['runs with transitions from inside a state to its own history state'] = 1
     if case.get('shared_text'):
         S = "(glog.append('S') or True)"
         for k, t in enumerate(spec['transitions']):
